@@ -4,11 +4,8 @@
    entries of one level with begin <= key (< end). *)
 From Coq Require Import ZArith List Bool Lia.
 Import ListNotations.
-From Osmo Require Import C16.Model.
+From Osmo Require Import C16.Model C16.Keys.
 Open Scope Z_scope.
-
-Lemma key_cmp_refl : forall a, key_cmp a a = Eq.
-Proof. induction a as [|x a IH]; simpl; auto. rewrite Z.compare_refl; auto. Qed.
 
 Lemma key_cmp_app_same : forall p a b, key_cmp (p ++ a) (p ++ b) = key_cmp a b.
 Proof. induction p as [|x p IH]; intros; simpl; auto. rewrite Z.compare_refl; auto. Qed.
